@@ -1,6 +1,7 @@
 import MongoModel.Wire
 import MongoModel.Filter
 import Spec.MatchDomain
+import Spec.MatchClasses
 open MongoModel MongoModel.Wire
 
 def handle (ts : List String) : List String :=
@@ -26,7 +27,7 @@ def handle (ts : List String) : List String :=
     | some (f, r') => match parseVal r' with
       | some (d, []) =>
         showR showBool (filterApplies f d) ++ ["|"] ++ showR showBool (Spec.specMatches f d)
-          ++ ["|"] ++ (Spec.reasons f d).eraseDups
+          ++ ["|"] ++ (Spec.reasons f d).eraseDups ++ ["|"] ++ (Spec.deepLabels f d).eraseDups
       | _ => ["?parse"]
     | _ => ["?parse"]
   | _ => ["?cmd"]
